@@ -5,47 +5,13 @@
   about documents.
 -/
 import PyGqlModel.Props.C04_fuel
+import PyGqlModel.Spec.ValidDoc
 
 set_option linter.unusedSimpArgs false
 set_option linter.unusedVariables false
 
 namespace PyGql.Props.C04
-open PyGql PyGql.Exec
-
-mutual
-/-- nested `collect_fields` calls needed below a selection (`rk` ranks fragment names) -/
-def selNeed (rk : String → Nat) : Sel → Nat
-  | .field _ _ _ _ _ _ _ => 0
-  | .inline _ _ sub => 1 + selsNeed rk sub
-  | .spread name _ => 1 + rk name
-def selsNeed (rk : String → Nat) : List Sel → Nat
-  | [] => 0
-  | x :: xs => max (selNeed rk x) (selsNeed rk xs)
-end
-
-mutual
-/-- nested `execute_fields` levels needed below a selection (`ek` ranks fragment names) -/
-def selDepth (ek : String → Nat) : Sel → Nat
-  | .field _ _ _ _ _ _ sub => 1 + selsDepth ek sub
-  | .inline _ _ sub => selsDepth ek sub
-  | .spread name _ => ek name
-def selsDepth (ek : String → Nat) : List Sel → Nat
-  | [] => 0
-  | x :: xs => max (selDepth ek x) (selsDepth ek xs)
-end
-
-mutual
-/-- every selection list inside needs at most `B` nested collect calls -/
-def selBounded (rk : String → Nat) (B : Nat) : Sel → Bool
-  | .field _ _ _ _ _ _ sub => selsBounded rk B sub
-  | .inline _ _ sub => selsBounded rk B sub
-  | .spread _ _ => true
-def selsBoundedIn (rk : String → Nat) (B : Nat) : List Sel → Bool
-  | [] => true
-  | x :: xs => selBounded rk B x && selsBoundedIn rk B xs
-def selsBounded (rk : String → Nat) (B : Nat) (sels : List Sel) : Bool :=
-  decide (selsNeed rk sels ≤ B) && selsBoundedIn rk B sels
-end
+open PyGql PyGql.Exec PyGql.Spec
 
 /-- declarative acyclicity: fragment names can be ranked so that ranks decrease along spreads — `rk` for the nesting
     of `collect_fields` calls, `ek` for the nesting of `execute_fields` levels; `B` bounds every selection list. -/
@@ -261,10 +227,10 @@ private theorem collectStep_nodeFuel (s : SchemaD) (doc : Doc) (vars : Vars) (rk
           intro n hn
           simp at hn; subst hn
           simp only [selDepth] at hd
-          exact ⟨by simp; omega, by simpa [selBounded] using hb.1⟩
+          exact ⟨by simp; omega, by simpa [selBounded, selsBounded] using hb.1⟩
     | inline on dirs sub =>
       simp only [selDepth] at hd
-      have hbs : selsBounded rk B sub = true := by simpa [selBounded] using hb.1
+      have hbs : selsBounded rk B sub = true := by simpa [selBounded, selsBounded] using hb.1
       simp only [collectStep, bind, Except.bind, pure, Except.pure] at h
       cases hsk : skipSelection vars dirs with
       | error e => simp [hsk] at h
@@ -533,5 +499,48 @@ theorem responds (s : SchemaD) (doc : Doc) (vars : Vars) (w : World) (rk ek : St
           intro hh
           simp at hh
           exact hf (by rw [hr', hh])
+
+
+/-! ### a checkable certificate: the ranks computed by `Spec.rankedB` (evaluated by the driver on every accepted document) -/
+
+private theorem fragment_mem (doc : Doc) (name : String) (fr : Frag) (h : doc.fragment? name = some fr) :
+    fr ∈ doc.frags ∧ fr.name = name := by
+  unfold Doc.fragment? at h
+  have hm := List.mem_of_find?_eq_some h
+  have hk := List.find?_some h
+  simp at hm hk
+  exact ⟨hm, hk⟩
+
+/-- the Boolean certificate is sound: it yields a ranking in the declarative sense -/
+theorem ranked_of_rankedB (doc : Doc) (h : rankedB doc = true) :
+    Ranked doc (docRk doc) (docEk doc) (docBound doc) ∧ ∀ o ∈ doc.ops, selsBounded (docRk doc) (docBound doc) o.sels = true := by
+  unfold rankedB at h
+  simp only [Bool.and_eq_true, List.all_eq_true, decide_eq_true_eq] at h
+  obtain ⟨hfr, hops⟩ := h
+  refine ⟨⟨?_, ?_, ?_⟩, hops⟩
+  · intro name fr hf
+    obtain ⟨hm, rfl⟩ := fragment_mem doc name fr hf
+    exact (hfr fr hm).1.1
+  · intro name fr hf
+    obtain ⟨hm, rfl⟩ := fragment_mem doc name fr hf
+    exact (hfr fr hm).1.2
+  · intro name fr hf
+    obtain ⟨hm, rfl⟩ := fragment_mem doc name fr hf
+    exact (hfr fr hm).2
+
+/-- **responds_certified**: every document that passes the (decidable) rank certificate responds to every request -/
+theorem responds_certified (s : SchemaD) (doc : Doc) (vars : Vars) (w : World) (h : rankedB doc = true) (op : Option String) :
+    ∃ r, RespondsWith s doc vars w op r :=
+  responds s doc vars w _ _ _ (ranked_of_rankedB doc h).1 (ranked_of_rankedB doc h).2 op
+
+/-- non-vacuity: nested fragments, inline fragments, sub-selections -/
+def totDoc : Doc :=
+  { ops := [{ kind := "query", name := none,
+              sels := [.field "a" "a" 2 [] [] true [.spread "F" [], .inline none [] [.spread "G" []]], .spread "G" []] }],
+    frags := [{ name := "F", on := "Ob", sels := [.field "x" "x" 30 [] [] true [.spread "G" []]] },
+              { name := "G", on := "Ob", sels := [.field "y" "y" 50 [] [] false []] }] }
+example : rankedB totDoc = true := by decide
+/-- a cyclic document has no certificate -/
+example : rankedB { ops := [], frags := [{ name := "A", on := "T", sels := [.spread "A" []] }] } = false := by decide
 
 end PyGql.Props.C04
